@@ -610,3 +610,49 @@ pub fn substitute<O1: Lbl, A1: Lbl, O2: Lbl, A2: Lbl>(
         Err(_) => Err(SubstErr::LabelConflict),
     }
 }
+
+/// One pass "strip" layering of a directed multigraph given by successor lists:
+/// returns (left, depth) where left[v] = v is on or downstream of a cycle, and depth[v] is the
+/// length of the longest path ending in v for every other vertex.
+pub fn strip_depths(succ: &[Vec<usize>]) -> (Vec<bool>, Vec<Option<usize>>) {
+    let n = succ.len();
+    let mut indeg = vec![0usize; n];
+    for a in 0..n {
+        for &b in &succ[a] {
+            indeg[b] += 1;
+        }
+    }
+    let mut depth: Vec<Option<usize>> = vec![None; n];
+    let mut queue: std::collections::VecDeque<usize> = (0..n).filter(|&v| indeg[v] == 0).collect();
+    for &v in queue.iter() {
+        depth[v] = Some(0);
+    }
+    let mut best = vec![0usize; n];
+    let mut left = vec![true; n];
+    while let Some(v) = queue.pop_front() {
+        left[v] = false;
+        let dv = depth[v].unwrap();
+        for &b in &succ[v] {
+            if best[b] < dv + 1 {
+                best[b] = dv + 1;
+            }
+            indeg[b] -= 1;
+            if indeg[b] == 0 {
+                depth[b] = Some(best[b]);
+                queue.push_back(b);
+            }
+        }
+    }
+    (left, depth)
+}
+
+/// predecessor lists from successor lists
+pub fn preds_of(succ: &[Vec<usize>]) -> Vec<Vec<usize>> {
+    let mut p = vec![vec![]; succ.len()];
+    for (a, l) in succ.iter().enumerate() {
+        for &b in l {
+            p[b].push(a);
+        }
+    }
+    p
+}
